@@ -28,7 +28,7 @@ use std::sync::{Arc, Mutex};
 use std::time::Duration;
 
 #[derive(Clone, Default)]
-struct Capture(Arc<Mutex<Vec<(ServiceInstallCtx, bool)>>>);
+struct Capture(Arc<Mutex<Vec<(ServiceInstallCtx, bool)>>>, Arc<Mutex<bool>>);
 
 impl ServiceControl for Capture {
     fn create_service_user(&self, _u: &str) -> SvcResult<()> {
@@ -42,18 +42,73 @@ impl ServiceControl for Capture {
         Ok(())
     }
     fn get_process_pid(&self, p: &Path) -> SvcResult<u32> {
-        Err(ant_service_management::Error::ServiceProcessNotFound(p.to_string_lossy().to_string()))
+        if *self.1.lock().unwrap() {
+            Ok(4242)
+        } else {
+            Err(ant_service_management::Error::ServiceProcessNotFound(p.to_string_lossy().to_string()))
+        }
     }
     fn start(&self, _n: &str, _u: bool) -> SvcResult<()> {
+        *self.1.lock().unwrap() = true;
         Ok(())
     }
     fn stop(&self, _n: &str, _u: bool) -> SvcResult<()> {
+        *self.1.lock().unwrap() = false;
         Ok(())
     }
     fn uninstall(&self, _n: &str, _u: bool) -> SvcResult<()> {
         Ok(())
     }
     fn wait(&self, _d: u64) {}
+}
+
+/// the RPC endpoint of a running node: reports its pid, peer id and listen addresses (loopback first
+/// when it listens on 0.0.0.0, as a real node does)
+struct LiveRpc {
+    ip: Option<String>,
+    port: u16,
+}
+#[async_trait]
+impl RpcActions for LiveRpc {
+    async fn node_info(&self) -> SvcResult<NodeInfo> {
+        Ok(NodeInfo {
+            pid: 4242,
+            peer_id: libp2p::PeerId::from_str("12D3KooWS2tpXGGTmg2AHFiDh57yPQnat49YHnyqoggzXZWpqkCR").unwrap(),
+            log_path: PathBuf::new(),
+            data_path: PathBuf::new(),
+            version: "0.1.1".to_string(),
+            uptime: Duration::from_secs(1),
+            wallet_balance: 0,
+        })
+    }
+    async fn network_info(&self) -> SvcResult<NetworkInfo> {
+        let ips: Vec<String> = match &self.ip {
+            Some(ip) => vec![ip.clone()],
+            None => vec!["127.0.0.1".to_string(), "192.168.1.5".to_string()],
+        };
+        Ok(NetworkInfo {
+            connected_peers: vec![libp2p::PeerId::from_str("12D3KooWS2tpXGGTmg2AHFiDh57yPQnat49YHnyqoggzXZWpqkCR").unwrap()],
+            listeners: ips.iter().map(|ip| format!("/ip4/{ip}/udp/{}/quic-v1", self.port).parse().unwrap()).collect(),
+        })
+    }
+    async fn record_addresses(&self) -> SvcResult<Vec<RecordAddress>> {
+        Ok(vec![])
+    }
+    async fn node_restart(&self, _d: u64, _r: bool) -> SvcResult<()> {
+        Ok(())
+    }
+    async fn node_stop(&self, _d: u64) -> SvcResult<()> {
+        Ok(())
+    }
+    async fn node_update(&self, _d: u64) -> SvcResult<()> {
+        Ok(())
+    }
+    async fn is_node_connected_to_network(&self, _t: Duration) -> SvcResult<()> {
+        Ok(())
+    }
+    async fn update_log_level(&self, _l: String) -> SvcResult<()> {
+        Ok(())
+    }
 }
 
 struct NoRpc;
@@ -156,6 +211,10 @@ fn run_antnode(bin: &str, ctx: &ServiceInstallCtx, base: &Path) -> Value {
         .env_remove("ANT_PEERS")
         .env_remove("EVM_NETWORK")
         .env_remove("RPC_URL")
+        .env_remove("PAYMENT_TOKEN_ADDRESS")
+        .env_remove("DATA_PAYMENTS_ADDRESS")
+        // the environment of the service definition is part of what the manager writes
+        .envs(ctx.environment.clone().unwrap_or_default())
         .output();
     let mut files = vec![];
     list_files(base, base, &mut files);
@@ -239,9 +298,38 @@ async fn run_case(case: &Value, base: &Path, antnode: Option<&str>) -> Value {
     // what a later `antctl upgrade` sees: the registry as saved and reloaded
     reg.save().unwrap();
     let mut reg = NodeRegistry::load(&base.join("node_registry.json")).unwrap();
-    if let Some(port) = opt_u64(&case["observed_port"]) {
-        // NodeService::on_start records the port the node is observed to listen on
-        reg.nodes[0].node_port = Some(port as u16);
+    let life: Vec<String> = case["lifecycle"].as_array().map(|a| a.iter().map(|x| x.as_str().unwrap().to_string()).collect()).unwrap_or_default();
+    if life.is_empty() {
+        if let Some(port) = opt_u64(&case["observed_port"]) {
+            // NodeService::on_start records the port the node is observed to listen on
+            reg.nodes[0].node_port = Some(port as u16);
+        }
+    }
+    // the service's life between installation and upgrade: real ServiceManager::start / stop and
+    // refresh_node_registry against a node whose RPC reports pid, peer id and listeners; the registry is
+    // saved and reloaded after every step, as the antctl commands do
+    let listen_port = opt_u64(&case["observed_port"]).or(opt_u64(&case["node_port"])).unwrap_or(45000) as u16;
+    for step in &life {
+        match step.as_str() {
+            "start" | "stop" => {
+                let node = &mut reg.nodes[0];
+                let rpc = LiveRpc { ip: opt_str(&case["ip"]), port: listen_port };
+                let service = NodeService::new(node, Box::new(rpc));
+                let mut m = ant_node_manager::ServiceManager::new(service, Box::new(cap.clone()), VerbosityLevel::Minimal);
+                let r = if step == "start" { m.start().await } else { m.stop().await };
+                if let Err(e) = r {
+                    return json!({ "lifecycle_error": format!("{step}: {e}") });
+                }
+            }
+            "refresh" => {
+                if let Err(e) = ant_node_manager::refresh_node_registry(&mut reg, &cap, false, false, false).await {
+                    return json!({ "lifecycle_error": format!("refresh: {e}") });
+                }
+            }
+            other => panic!("unknown lifecycle step {other}"),
+        }
+        reg.save().unwrap();
+        reg = NodeRegistry::load(&base.join("node_registry.json")).unwrap();
     }
     // cmd/node.rs::upgrade: env = the ones provided with the upgrade, else the registry-wide ones;
     // auto_restart is the literal the command passes
